@@ -245,7 +245,13 @@ func expandSite(s *inlineSite, k int, overlay map[string][]byte) (*expansion, er
 			}
 		}
 		for i := 0; i < sig.Results().Len(); i++ {
-			results = append(results, typeStr(sig.Results().At(i).Type()))
+			r := typeStr(sig.Results().At(i).Type())
+			if n := sig.Results().At(i).Name(); n != "" && n != "_" {
+				r = n + suffix + " " + r
+			} else if n == "_" {
+				r = "_ " + r
+			}
+			results = append(results, r)
 		}
 		var bb bytes.Buffer
 		if err := printer.Fprint(&bb, bodyFset, body); err != nil {
@@ -336,6 +342,28 @@ func expandSite(s *inlineSite, k int, overlay map[string][]byte) (*expansion, er
 		return nil, fmt.Errorf("argument count mismatch")
 	}
 
+	// named results are ordinary locals of the helper, zero at entry; a bare
+	// return returns their current values (the helper has no defer)
+	var namedResults []string
+	if helper.Type.Results != nil {
+		for _, f := range helper.Type.Results.List {
+			for _, nm := range f.Names {
+				n := nm.Name
+				if n == "_" {
+					n = fmt.Sprintf("_blank%d", len(namedResults))
+				}
+				namedResults = append(namedResults, n+suffix)
+			}
+		}
+	}
+	if len(namedResults) == nres && nres > 0 {
+		for i, n := range namedResults {
+			fmt.Fprintf(&prelude, "var %s %s\n_ = %s\n", n, typeStr(sig.Results().At(i).Type()), n)
+		}
+	} else {
+		namedResults = nil
+	}
+
 	// ---- decide the shape of the expansion
 	resName := func(i int) string { return fmt.Sprintf("_r%d%s", i, suffix) }
 	endLabel, okLabel := "_end"+suffix, "_ok"+suffix
@@ -359,7 +387,13 @@ func expandSite(s *inlineSite, k int, overlay map[string][]byte) (*expansion, er
 			if !ok {
 				return true
 			}
-			stmts := rw(idx, ret.Results)
+			results := ret.Results
+			if len(results) == 0 && namedResults != nil {
+				for _, n := range namedResults {
+					results = append(results, ast.NewIdent(n))
+				}
+			}
+			stmts := rw(idx, results)
 			idx++
 			if stmts != nil {
 				c.Replace(&ast.BlockStmt{List: stmts})
@@ -438,6 +472,11 @@ func expandSite(s *inlineSite, k int, overlay map[string][]byte) (*expansion, er
 			}
 		}
 		if same && endsTerminating(helper.Body) {
+			if namedResults != nil {
+				applyReturns(func(idx int, results []ast.Expr) []ast.Stmt {
+					return []ast.Stmt{&ast.ReturnStmt{Results: results}}
+				})
+			}
 			txt, err := printBody()
 			if err != nil {
 				return nil, err
